@@ -82,15 +82,29 @@ func (s upstreamSigner) Sign(_ io.Reader, data []byte) (*ssh.Signature, error) {
 }
 
 // SignWithAlgorithm signs the data with the key in the underlying agent with the specified algorithm.
+// Like the signers of the underlying agent's client, it refuses an algorithm the key cannot sign with.
 func (s upstreamSigner) SignWithAlgorithm(_ io.Reader, data []byte, algorithm string) (*ssh.Signature, error) {
 	var flags agent.SignatureFlags
 	switch algorithm {
+	case "", keyAlgo(s.pub):
 	case ssh.KeyAlgoRSASHA256:
 		flags = agent.SignatureFlagRsaSha256
 	case ssh.KeyAlgoRSASHA512:
 		flags = agent.SignatureFlagRsaSha512
+	default:
+		return nil, fmt.Errorf("agent: unsupported algorithm %q", algorithm)
 	}
 	return s.agent.SignWithFlags(s.pub, data, flags)
+}
+
+// keyAlgo returns the algorithm name of the key itself, which for a certificate is that of the certified key.
+func keyAlgo(pub ssh.PublicKey) string {
+	if parsed, err := ssh.ParsePublicKey(pub.Marshal()); err == nil {
+		if cert, ok := parsed.(*ssh.Certificate); ok {
+			return cert.Key.Type()
+		}
+	}
+	return pub.Type()
 }
 
 type hashcode [sha256.Size]byte
